@@ -63,11 +63,21 @@ def generate(streams: Streams, tier: str, index: int) -> dict:
         # how the droplet object came to be (all give the same droplet): constructor, from a
         # volume, through the volume / radius setters, across a process boundary, as a member
         # of an emulsion whose data was linked
+        s["_w"] = 1  # placeholder removed below
         s["via"] = rng.choice(["ctor", "ctor", "ctor", "from_volume", "set_volume", "set_radius",
                                "pickled", "linked"])
         drops.append(s)
     if all(d["radius"] == 0 for d in drops):
         drops[0]["radius"] = 1.0
+    # a change of length units (the statement has none): microscopic and astronomical droplets
+    unit = rng.choice([1, 1, 1, 1, 1, 1e-3, 1e-6, 2.0 ** -20, 1e-9, 1e3, 1e6])
+    for d in drops:
+        d.pop("_w", None)
+        if unit != 1:
+            d["position"] = [x * unit for x in d["position"]]
+            d["radius"] = d["radius"] * unit
+            if d.get("interface_width") is not None:
+                d["interface_width"] = d["interface_width"] * unit
     # a small fraction of runs also goes through a numba-compiled caller (costly to compile)
     every = 400 if tier == "quick" else 150
     compiled = index % every == 0
@@ -141,7 +151,8 @@ def _run_schedule(drops, merges, dim, V, cnt, log, tag):
     V0 = math.fsum(vol(d.radius, dim) for d in survivors)
     C0 = [math.fsum(vol(d.radius, dim) * float(d.position[k]) for d in survivors) / V0
           for k in range(dim)]
-    scale = max(1.0, max(abs(float(x)) for d in survivors for x in d.position))
+    scale = max([abs(float(x)) for d in survivors for x in d.position] +
+                [float(d.radius) for d in survivors] + [1e-300])
     n_done = 0
     paths = []
     for mi, mg in enumerate(merges):
@@ -315,7 +326,8 @@ def execute(case: dict) -> Outcome:
         radii = {d["radius"] for d in case["droplets"]}
         nontrivial = n1 >= 2 and len(radii) > 1
         if len(s1) == 1 and len(s2) == 1:
-            scale = max(1.0, max(abs(float(x)) for d in case["droplets"] for x in d["position"]))
+            scale = max([abs(float(x)) for d in case["droplets"] for x in d["position"]] +
+                        [float(d["radius"]) for d in case["droplets"]] + [1e-300])
             tol = 1e-12 * max(n1, n2, 1)
             cnt.inc("grouping_comparisons")
             if not rel_close(s1[0].radius, s2[0].radius, tol) or not rel_close(
